@@ -267,10 +267,10 @@ func rsTerm(rs []R) string {
 }
 
 // value terms (type C21.v); these strings are also what the oracle compares
-func vN(n uint64) string      { return vh.App("VN", vh.N(n)) }
-func vZ(z *big.Int) string    { return vh.App("VZ", vh.BigZ(z)) }
-func vBool(b bool) string     { return vh.App("VBool", vh.Bool(b)) }
-func vBytes(b []byte) string  { return vh.App("VBytes", cbytes(b)) }
+func vN(n uint64) string           { return vh.App("VN", vh.N(n)) }
+func vZ(z *big.Int) string         { return vh.App("VZ", vh.BigZ(z)) }
+func vBool(b bool) string          { return vh.App("VBool", vh.Bool(b)) }
+func vBytes(b []byte) string       { return vh.App("VBytes", cbytes(b)) }
 func vOpt(p bool, x string) string { return vh.App("VOpt", vh.Bool(p), x) }
 func vNest(vs []string, rest []byte) string {
 	return vh.App("VNest", vh.List0(vs, "v"), cbytes(rest))
